@@ -128,7 +128,10 @@ func zzH04seq() {
 	}
 	zzCheckRA(conn.writes[0].ra, cfg, zzIte(st.fwdValues[0], cfg.DefaultLifetime, 0), "first")
 	zzCheckRA(conn.writes[1].ra, cfg, zzIte(st.fwdValues[1], cfg.DefaultLifetime, 0), "second")
-	// the misconfiguration log line is emitted iff not forwarding and lifetime > 0 (ghost log inspected by the engine)
+	// C04: the condition is surfaced as a log line, once per RA built while
+	// not forwarding with a non-zero configured lifetime
+	want := zzIte(zzAnd(zzNot(st.fwdValues[0]), cfg.DefaultLifetime != 0), 1, 0) + zzIte(zzAnd(zzNot(st.fwdValues[1]), cfg.DefaultLifetime != 0), 1, 0)
+	zzAssert(zzLogCount("not configured for IPv6 forwarding") == want, "misconfiguration-logged-once-per-affected-ra")
 }
 
 // H08a: shutdown sends exactly one zero-lifetime multicast RA iff terminating.
